@@ -140,6 +140,8 @@ def run_impl(cases):
                 row["svs"].append([{"k": "ill"} for _ in qv])
                 row["dv"].append(bad if len(vs) <= 1 else {"k": "na"})
                 continue
+            # the EARLY long-lived objects are queried FIRST: whatever the previous point left in the caches is still there
+            pe_now = {v: ({"k": "na"} if early.get(v) is None else (early[v] if isinstance(early[v], dict) else J.outcome_of(lambda: early[v].at(pt)))) for v in qv}
             row["at"].append(J.outcome_of(lambda: root.at(pt)))
             per_v, svs = [], []
             # reverse mode: ONE object answers for all variables
@@ -171,8 +173,7 @@ def run_impl(cases):
                     if other is not None:
                         J.outcome_of(lambda: root.at(other))
                     pa2 = J.outcome_of(lambda: lp.at(pt))
-                ep = early.get(v)
-                pe = {"k": "na"} if ep is None else (ep if isinstance(ep, dict) else J.outcome_of(lambda: ep.at(pt)))
+                pe = pe_now[v]
                 o = {"pa": J.outcome_of(lambda: S.Partial(root, varg).at(pt)), "pa2": pa2, "pe": pe,
                      "ld": ld_err if ld_err else J.outcome_of(lambda: ld_obj.component(varg)),
                      "da": da_err if da_err else J.outcome_of(lambda: da_obj.component(varg))}
